@@ -196,8 +196,17 @@ def colGet (oldNames : List Name) (rec : RawRec) (n : Name) : Option (List Char)
 def remake (oldF newF : List Field) (rec : RawRec) : RawRec :=
   newF.map (fun f => colGet (oldF.map (·.name)) rec f.name)
 
+/-- the same for a record of typed values (source opened with `autocast=True`); a missing column
+gives `None` — a value that is merely falsy in Python (`0`, `0.0`) is a value like any other. -/
+def colGetV (oldNames : List Name) (rec : List Val) (n : Name) : Val :=
+  (lookupLast (oldNames.zip rec) n).getD .none
+
+def remakeV (oldF newF : List Field) (rec : List Val) : List Val :=
+  newF.map (fun f => colGetV (oldF.map (·.name)) rec f.name)
+
 structure DbReq where
   srcSchema : Schema            -- `db.schema`, read when `db` was opened
+  autocast : Bool := false      -- `db.autocast`: the source relation yields typed values
   inPlace : Bool                -- `path == db.path`
   names : Option (List Name)
   schema : Option Schema
@@ -219,6 +228,28 @@ def sourceRecords (q : DbReq) (newF : List Field) (from_ : Files) (name : Name) 
       let recs ← (splitLines (toText ls)).mapM decodeRaw
       pure (if q.schema.isSome then recs.map (remake oldF newF) else recs)
 
+/-- the same for a source opened with `autocast=True`: every line is split with the source fields
+(column count checked, every cell cast to its datatype — an error there aborts the call while the
+temp file is being filled), the typed records are remade by column name when a schema was given. -/
+def sourceTyped (q : DbReq) (newF : List Field) (from_ : Files) (name : Name) :
+    Except Err (List (List Val)) :=
+  match q.srcSchema.lookup name with
+  | none => .ok []
+  | some oldF =>
+    match (from_ name).read with
+    | none => .ok []
+    | some ls => do
+      let recs ← (splitLines (toText ls)).mapM (fun l => do castRow oldF (← decodeRaw l))
+      pure (if q.schema.isSome then recs.map (remakeV oldF newF) else recs)
+
+/-- the values handed to `join(record, fields)` -/
+def sourceVals (q : DbReq) (newF : List Field) (from_ : Files) (name : Name) :
+    Except Err (List (List Val)) :=
+  if q.autocast then sourceTyped q newF from_ name
+  else match sourceRecords q newF from_ name with
+    | .ok recs => .ok (recs.map (·.map toVal))
+    | .error e => .error e
+
 /-- body of the `for name in names` loop -/
 def writeOne (now : Nat) (q : DbReq) (src dst : Files) (name : Name) : Except Err Files :=
   match q.target.lookup name with
@@ -226,8 +257,8 @@ def writeOne (now : Nat) (q : DbReq) (src dst : Files) (name : Name) : Except Er
   | some fields =>
     let from_ := if q.inPlace then dst else src
     let staged : Except Err (List Line) := do
-      let recs ← sourceRecords q fields from_ name
-      stage fields (recs.map (·.map toVal))
+      let vals ← sourceVals q fields from_ name
+      stage fields vals
     match write now (dst name) { append := false, gzip := q.gzip, staged := staged } with
     | .ok r' => .ok (dst.set name r')
     | .error e => .error e
